@@ -217,6 +217,11 @@ def clenshaw_qbfs(cs, usq, alphas=None):
 
     """
     x = usq
+    if len(cs) == 1:
+        # the sum needs alphas[0] and alphas[1]: a single coefficient is
+        # the same surface as that coefficient followed by a zero
+        cs = (*cs, 0)
+
     bs = change_basis_Qbfs_to_Pn(cs)
     # alphas = np.zeros((len(cs), len(u)), dtype=u.dtype)
     alphas = _initialize_alphas(cs, x, alphas, j=0)
@@ -265,6 +270,10 @@ def clenshaw_qbfs_der(cs, usq, j=1, alphas=None):
 
     """
     x = usq
+    if len(cs) == 1:
+        # see clenshaw_qbfs: pad a single coefficient with a zero
+        cs = (*cs, 0)
+
     M = len(cs) - 1
     prefix = 2 - 4 * x
     alphas = _initialize_alphas(cs, usq, alphas, j=j)
